@@ -123,6 +123,7 @@ type Exec struct {
 	lazyCaptures bool
 	boxedPtrs   map[string]PtrVal
 	boxedVals   map[string]Value
+	localMirror map[*Cell]*Term // local struct whose address was boxed into an interface -> mirroring heap object
 	altRecv     *Cell // interface value holding the value receiver (body verified against an interface contract)
 }
 
@@ -132,7 +133,7 @@ func newExec(prog *Program, pk *packages.Package, fn *types.Func, decl *ast.Func
 	e := &Exec{prog: prog, pkg: pk, fn: fn, decl: decl, contract: c, cells: map[types.Object]*Cell{},
 		oblSeen: map[string]int{}, lets: map[string]Value{}, loopIDs: map[*ast.FuncDecl]map[ast.Node]int{},
 		globalsUsed: map[string]*types.Var{}, globalArrs: map[string]ArrayVal{}, assumptions: map[string]bool{},
-		calleesUsed: map[string]bool{}, boxedPtrs: map[string]PtrVal{}, boxedVals: map[string]Value{}}
+		calleesUsed: map[string]bool{}, boxedPtrs: map[string]PtrVal{}, boxedVals: map[string]Value{}, localMirror: map[*Cell]*Term{}}
 	e.lib = &libModel{}
 	if c != nil {
 		e.tags = c.Tags
